@@ -205,14 +205,16 @@ def hardware(rng, decl, einsums, mapping, buffers_p=0.5, merger_p=0.3):
             avail = [c for c in cands if c[0] not in used and (typ == "leader-follower" or len(c[1]) == 2)]
             if not single or not avail or rng.random() >= p:
                 continue
-            x, hs = avail[0]
-            used.add(x)
-            b += "  - component: %s\n    bindings:\n    - rank: %s\n" % (comp, x)
-            if typ == "leader-follower":
-                ld = rng.choice(hs)
-                b += "      leader: %s\n" % ld
-                meta["leaders"].append((o, x, ld))
-            meta["intersectors"].append((o, comp, typ, x))
+            # one component may serve several ranks of one Einsum (each with its own leader)
+            b += "  - component: %s\n    bindings:\n" % comp
+            for x, hs in avail[:(2 if rng.random() < 0.35 else 1)]:
+                used.add(x)
+                b += "    - rank: %s\n" % x
+                if typ == "leader-follower":
+                    ld = rng.choice(hs)
+                    b += "      leader: %s\n" % ld
+                    meta["leaders"].append((o, x, ld))
+                meta["intersectors"].append((o, comp, typ, x))
         if has_seq and rng.random() < 0.7:
             b += "  - component: Seq\n    bindings:\n"
             for x in rng.sample(e["loop"], rng.randint(1, len(e["loop"]))):
